@@ -184,6 +184,14 @@ def step (st : St) (toks : List String) : St × String :=
     | some P, some S, some c, some dk =>
       (st, digestLine (Percival.Spec.Pbkdf2.pbkdf2Sha256 P S c dk) (Pbkdf2.pbkdf2 P S c dk))
     | _, _, _, _ => (st, "bad-op")
+  | ["big", alg, n, cut, _al] =>
+    -- a message far beyond what the model can run, hashed by the implementation in three different partitions
+    -- (one call / two calls / 1 MiB pieces): by `C01.*_stream_eq_spec` (any partition = the Spec's value, which
+    -- does not depend on the partition) the only admissible answer is that the three results agree.
+    match n.toNat?, cut.toNat? with
+    | some n, some cut =>
+      if ["sha256", "sha1", "md5", "crc"].contains alg && cut ≤ n && n ≤ 2^32 + 2^20 then (st, s!"same {n}") else (st, "skip")
+    | _, _ => (st, "bad-op")
   | ["crc", _, x] =>
     match bytesOfHex x with
     | some b =>
